@@ -1110,8 +1110,8 @@ def _templates(max_depth, max_stmts, nlifts):
             return out
 
         body = stmts(2, {"types": {}, "numeric": set()}, False, False)
-        if chance(55):
-            body = [["autoescape", pick(["flag", "flag", "notflag", "true", "false"]), body]]
+        if chance(45):
+            body = [["autoescape", pick(["flag", "true", "notflag", "false", "true"]), body]]
         fin = "off"
         if chance(15):
             fin = pick(["none_empty", "env_none_empty", "ctx_none_empty"])
